@@ -105,5 +105,9 @@ TrQExpr == /\ IsEvent("QExpr")
 TraceNext == TrReset \/ TrRows \/ TrQExpr
 TraceSpec == TraceInit /\ [][TraceNext]_tvars
 HW == HWMark(l)
-AcceptedS == PrintT(<<"BAD-LINES", TLCGet(5)>>) /\ Accepted
+\* in survey mode the list of rejected lines is also written (JSON array) to the file named by
+\* VERIF_BADOUT: the console output may be truncated by the runner
+AcceptedS == /\ (Survey /\ "VERIF_BADOUT" \in DOMAIN IOEnv) => JsonSerialize(IOEnv["VERIF_BADOUT"], TLCGet(5))
+             /\ PrintT(<<"BAD-LINES", TLCGet(5)>>)
+             /\ Accepted
 =============================================================================
